@@ -67,12 +67,11 @@ fn validate_integrity(integrity: &ssri::Integrity) -> bool {
 
     // For each hash, check if it has a valid base64-encoded digest
     for hash in &integrity.hashes {
-        // Check if digest is valid base64 using the modern API
-        if base64::engine::general_purpose::STANDARD
-            .decode(&hash.digest)
-            .is_err()
-        {
-            return false;
+        // Check if digest is valid base64 using the modern API. The content path is derived
+        // from the first two bytes of the digest: anything shorter cannot address content
+        match base64::engine::general_purpose::STANDARD.decode(&hash.digest) {
+            Ok(digest) if digest.len() >= 2 => {}
+            _ => return false,
         }
     }
 
